@@ -11,6 +11,12 @@ class Case(dict):
 def judge_cases(model_exe, mode, cases, harness_exe=None, stall=30.0):
     """Run implementation then model; returns list of (case, obs_text, verdict_text)."""
     obs = core.run_impl(mode, cases, exe=harness_exe, stall=stall)
+    # a case without an observation, or one the supervisor attributed a hang / abort to, is run once more on its own
+    # (a heavily loaded machine can starve a process past the stall limit, and the attribution of an abort to "the
+    # current case" is a guess when the process died between two cases); a reproducible hang or abort stays one
+    redo = [c for c in cases if obs.get(c["id"], "(missing)").startswith(("(missing", "(hang", "(abort"))]
+    if 0 < len(redo) <= 40 and len(cases) > len(redo):
+        obs.update(core.run_impl(mode, redo, exe=harness_exe, stall=stall * 2, workers=4))
     lines = []
     for c in cases:
         o = obs.get(c["id"], "(missing)")
